@@ -1,4 +1,5 @@
 import BeyondVerif.Model.Heap
+import BeyondVerif.Model.PickleReg
 import BeyondVerif.Drv.Util
 /-!
 Line protocol for C15:
@@ -6,6 +7,7 @@ Line protocol for C15:
   `heap <op> ; <op> ; …`   runs the operations in order on an empty heap and replies, per operation,
                             `<status> <dump of every variable>` joined by ` || `
   `access <form> <name>`    name resolution of `__getattr__`: `slot i` | `foreign` | `free`
+  `freg <cmd> ; …`          frame-registry events interleaved with pickle dumps / loads of a state vector (Model/PickleReg.lean)
 
 The dump walks the object graph from the variables in order and numbers mutable objects by first
 visit, so two dumps are equal exactly when values, structure and the sharing pattern are equal.
@@ -262,8 +264,24 @@ def accessOp : List String → String
     | .free => "free"
   | _ => "bad-op"
 
+/-- `freg <cmd> ; <cmd> ; …` on the registry as it is after import: `build <cls> <name> <orientation> <centre>` | `drop <key>` |
+`dump <j>` | `load <b>` | `get <key>`; the reply lists what `load` / `get` gave, joined by ` | ` -/
+def fregCmd : List String → Option PickleReg.Cmd
+  | ["build", c, n, o, ce] => some (.build ⟨c, n, o, ce⟩)
+  | ["drop", k] => some (.drop k)
+  | ["dump", j] => j.toNat?.map .dump
+  | ["load", b] => b.toNat?.map .load
+  | ["get", k] => some (.get k)
+  | _ => none
+
+def fregOp (toks : List String) : String :=
+  match (splitOps toks).mapM fregCmd with
+  | some cmds => joinWith " | " (cmds.foldl PickleReg.St.step {}).outs
+  | none => "bad-op"
+
 def handle : List String → Option String
   | "heap" :: args => some (heapOp args)
+  | "freg" :: args => some (fregOp args)
   | "access" :: args => some (accessOp args)
   | _ => none
 
